@@ -267,6 +267,7 @@ type Analysis struct {
 	NoopTaint, NoopUntaint bool // a node found already in the wanted state: whether it counts as done by this scan is the code's choice
 	TaintPutOK int            // acknowledged taint writes only
 	TaintAttempted, UntaintAttempted map[string]bool
+	UntaintFailed map[string]bool // the read or the write of an untaint attempt on this node failed
 	Increase  []*Call // acknowledged-or-not cloud increase calls (set-desired, create-fleet)
 	Requested int64   // amount of capacity requested on top of known desired (acknowledged requests)
 	ReqCalls  int
@@ -299,7 +300,7 @@ func near(a, b *big.Rat) bool {
 
 func analyse(gs *GroupScan, g *GroupCfg, rec *ScanRecord) *Analysis {
 	a := &Analysis{Class: map[string]string{}, Node: map[string]*v1.Node{}, ByInst: map[string]string{}, PodsOn: map[string]int{}, Bands: map[string]bool{},
-		TaintAttempted: map[string]bool{}, UntaintAttempted: map[string]bool{}}
+		TaintAttempted: map[string]bool{}, UntaintAttempted: map[string]bool{}, UntaintFailed: map[string]bool{}}
 	a.ReqCPU, a.ReqMem, a.CapCPU, a.CapMem = big.NewInt(0), big.NewInt(0), big.NewInt(0), big.NewInt(0)
 	if gs.PodsErr || gs.NodesErr || !gs.NodesListed {
 		a.Kind = kListErr
@@ -424,9 +425,38 @@ func analyse(gs *GroupScan, g *GroupCfg, rec *ScanRecord) *Analysis {
 		a.Bands["up"] = true
 	}
 	// documented triggers that may turn the decision into a scale-up
+	// scale_on_starve is documented as firing "whenever there is a pod that cannot currently be scheduled due
+	// to no node having capacity to run it". The permission is the widest reading of that sentence the view
+	// supports: some Pending pod of the group fits (cpu and memory together) on no untainted node, with the
+	// room on a node taken as its allocatable minus everything of the group that is bound to it. A pod that
+	// does fit somewhere gives no permission, whichever node the code happens to look at.
 	if g.Starve && a.U < gs.MaxEff {
+		type room struct{ cpu, mem *big.Int }
+		free := map[string]*room{}
+		for _, n := range a.Untainted {
+			free[n.Name] = &room{new(big.Int).Set(resCPU(n.Status.Allocatable)), new(big.Int).Set(resMem(n.Status.Allocatable))}
+		}
+		roundDown = true // the smallest requests any rounding gives: the permission must not be narrower than a legitimate trigger
 		for _, p := range gs.Pods {
-			if p.Status.Phase == v1.PodPending {
+			if r, ok := free[p.Spec.NodeName]; ok {
+				c, m := podRequest(p)
+				r.cpu.Sub(r.cpu, c)
+				r.mem.Sub(r.mem, m)
+			}
+		}
+		roundDown = false
+		for _, p := range gs.Pods {
+			if p.Status.Phase != v1.PodPending {
+				continue
+			}
+			c, m := podRequest(p) // rounded up: the largest the pod can be taken to be
+			fits := false
+			for _, n := range a.Untainted {
+				if free[n.Name].cpu.Cmp(c) >= 0 && free[n.Name].mem.Cmp(m) >= 0 {
+					fits = true
+				}
+			}
+			if !fits {
 				a.StarveMay = true
 			}
 		}
@@ -502,6 +532,9 @@ func analyse(gs *GroupScan, g *GroupCfg, rec *ScanRecord) *Analysis {
 	// only in the lenient "was offered" sets above.
 	kept := a.Attempts[:0]
 	for _, at := range a.Attempts {
+		if at.Kind == "untaint" && (!at.GetOK || at.Put != nil && !at.PutOK) {
+			a.UntaintFailed[at.Node] = true
+		}
 		at.Noop = at.Put == nil && at.GetOK && (at.Kind == "taint" && at.Present || at.Kind == "untaint" && !at.Present)
 		if at.Put == nil && !at.Noop {
 			continue
